@@ -77,6 +77,9 @@ C07_CtlMonotone == Is("CtlSweep") =>
          ks == DistinctKeys(m)
      IN  \A i \in 1..Len(Cur.regs) : Cur.regs[i] \in WriteSetForK(m, ks, Cur.reqs[i])
 
+\* ... also with maxPwmChangePerCycle, from one and the same previous state
+C07_CtlRateMonotone == Is("CtlSweepRate") => NonDecreasing(Cur.reqs)
+
 Report == l = N + 1 => PrintT(<<"TRACE-DONE", N, "DRIFT", <<>>>>)
 TraceAccepted == TLCGet("stats").diameter = N + 1
 ==============================================================================
